@@ -47,5 +47,9 @@ func GovcC12Cholesky() {
     if _, _, err := Run(t, LDL{true}); err == nil {
       govcC12Same(fmt.Sprintf("ldl[real=%v]", real), t, t0)
     }
+    u, u0 := govcC12Input(2, 2, real, true)
+    if _, _, err := Run(u, LDL{true}, ForcePD{true}); err == nil {
+      govcC12Same(fmt.Sprintf("ldl-forcepd[real=%v]", real), u, u0)
+    }
   }
 }
